@@ -1,12 +1,11 @@
-// C13 round 2 — boundary coordinate pairs: floating-point coordinates and the 1-D tree (see C13_pairs.hh).
+// C13 round 2 — boundary coordinate pairs: floating-point coordinates (see C13_pairs.hh).
 #include "C13_pairs.hh"
 using namespace c13;
-VF_SECTION(pairs_fp_1d, 16, 16, 120) {
+VF_SECTION(pairs_fp, 16, 16, 120) {
+  bool th = r.thorough();
+  (void)th;
   std::string b;
   run_pairs<Vector2<float>>(r, boundary_alphabet<float>(), 4, b);
   run_pairs<Vector2<double>>(r, boundary_alphabet<double>(), 4, b);
-  run_pairs<P1<int64_t>>(r, boundary_alphabet<int64_t>(), 4, b);
-  run_pairs<P1<double>>(r, boundary_alphabet<double>(), 4, b);
-  r.bound = "every ordered pair (a,b) of the boundary alphabet (floating point: +-0, denormal, min, 0.1, 0.5, 1-eps/2, 1, 1+eps, 1.5, 2^31, 2^32, 2^p-1, 2^p, 2^p+2 (p = mantissa width), 2^63, 2^64, max, infinity, all with both signs; "
-            "int64_t: 2^k-1, 2^k, 2^k+1 for every k, negatives, limits) as the two coordinate values of a 4-point tree (1-D: a, b and a duplicate of a): " + b;
+  r.bound = "every ordered pair (a,b) of the floating-point boundary alphabet (+-0, denormal, min, 0.1, 0.5, 1-eps/2, 1, 1+eps, 1.5, 2^31, 2^32, 2^p-1, 2^p, 2^p+2 (p = mantissa width), 2^63, 2^64, max, infinity, all with both signs) as the two coordinate values of a 4-point tree: " + b;
 }
